@@ -129,7 +129,8 @@ impl Out {
         writeln!(self.tags, "{}", c.tag).unwrap();
         match &c.oracle {
             None => writeln!(self.expect, "-").unwrap(),
-            Some(m) => writeln!(self.expect, "!C17|{}", m).unwrap(),
+            // (no property prefix: the profile serves C17 and, through the partitioner, C18)
+            Some(m) => writeln!(self.expect, "!{}", m).unwrap(),
         }
         self.n += 1;
     }
